@@ -1,6 +1,7 @@
 package props
 
 import (
+	"bytes"
 	"crypto/sha1"
 	"encoding/json"
 	"fmt"
@@ -12,6 +13,8 @@ import (
 	"sync"
 	"sync/atomic"
 
+	"github.com/golang/protobuf/proto"
+	"github.com/openacid/slim/array"
 	"github.com/openacid/slim/trie"
 )
 
@@ -1004,5 +1007,113 @@ func independentReaders(round int, s *Stats) error {
 	s.doneHash(uint64(round)+1<<40, true)
 	s.calls(len(cases) * 3 * 12 * 400)
 	s.class("independent_readers")
+	return nil
+}
+
+// concurrentArrayReaders (round f, C16-f): a built array is a value; reading it
+// has no side effects. Arrays of every kind (typed, generic with the library's
+// encoder, generic with a configured encoder, loaded into array.NewEmpty-style
+// targets) are built sequentially, then 8 goroutines read ALL of them at the
+// same time through the typed/generic accessor and the raw-bytes accessor;
+// every answer is compared with the model.
+func concurrentArrayReaders(round int, s *Stats) error {
+	kinds := []string{"Struct", "GenI32", "GenU32BE", "GenStructBE", "GenBlank", "U32", "I64", "GenNamedBE"}
+	type built struct {
+		kind string
+		idx  []int32
+		raws []uint64
+		get  func(int32) (interface{}, bool)
+		base *array.Base
+	}
+	var arrs []built
+	for g, kind := range kinds {
+		r := sm64{uint64(round*7793 + g*17 + 3)}
+		cnt := 50 + r.intn(400)
+		var idx []int32
+		var raws []uint64
+		at := int32(r.intn(70))
+		for i := 0; i < cnt; i++ {
+			idx = append(idx, at)
+			raws = append(raws, r.next())
+			at += 1 + int32(r.intn(1+g*2))
+		}
+		ta, e := buildArray(kind, idx, raws)
+		if e != nil {
+			if _, ok := e.(*violation); ok {
+				return e
+			}
+			return viol("array-build", "New%s rejected ascending indexes: %v", kind, e)
+		}
+		b := built{kind, idx, raws, ta.get, ta.base}
+		if (g+round)%2 == 1 && ta.newEmpty != nil {
+			// the reloaded twin is what the readers share
+			var lerr error
+			if err := guard("array round trip", func() error {
+				buf, e := proto.Marshal(ta.msg)
+				if e != nil {
+					lerr = e
+					return nil
+				}
+				msg, base, get := ta.newEmpty()
+				if e := proto.Unmarshal(buf, msg); e != nil {
+					lerr = e
+					return nil
+				}
+				b.get, b.base = get, base
+				return nil
+			}); err != nil {
+				return err
+			}
+			if lerr != nil {
+				return viol("array-roundtrip", "%s array does not survive a marshal round trip: %v", kind, lerr)
+			}
+		}
+		arrs = append(arrs, b)
+	}
+	errs := make([]error, 8)
+	var wg sync.WaitGroup
+	start := make(chan struct{})
+	for w := 0; w < 8; w++ {
+		w := w
+		wg.Add(1)
+		go func() {
+			defer wg.Done()
+			<-start
+			errs[w] = guard("reading a built array while other goroutines read it too", func() error {
+				for rep := 0; rep < 2; rep++ {
+					for ai := range arrs {
+						a := arrs[(ai+w)%len(arrs)]
+						next := 0
+						for i := int32(0); i <= a.idx[len(a.idx)-1]; i++ {
+							v, ok := a.get(i)
+							if next < len(a.idx) && a.idx[next] == i {
+								want := eltOf(a.kind, a.raws[next])
+								if !ok || !reflect.DeepEqual(v, want) {
+									return viol("array-get", "%s array read by 8 goroutines at once: Get(%d) = (%v,%v), want (%v,true)", a.kind, i, v, ok, want)
+								}
+								if raw, rok := a.base.GetBytes(i, len(eltBytes(a.kind, a.raws[next]))); !rok || !bytes.Equal(raw, eltBytes(a.kind, a.raws[next])) {
+									return viol("array-get", "%s array read by 8 goroutines at once: GetBytes(%d) = (%x,%v), want (%x,true)", a.kind, i, raw, rok, eltBytes(a.kind, a.raws[next]))
+								}
+								next++
+							} else if ok {
+								return viol("array-get", "%s array read by 8 goroutines at once: Get(%d) = (%v,true) for an absent index", a.kind, i, v)
+							}
+						}
+					}
+				}
+				return nil
+			})
+		}()
+	}
+	close(start)
+	wg.Wait()
+	for _, e := range errs {
+		if e != nil {
+			return e
+		}
+	}
+	s.doneHash(uint64(round)|1<<41, true)
+	s.calls(8 * 2 * len(arrs) * 300)
+	s.class("concurrent_readers_of_built_arrays")
 	return nil
 }
